@@ -123,9 +123,187 @@ class G:
         return bb
 
     # ------------------------------------------------------------ reachability
-    def reach(self, starts, kinds=(N, U, D), stop=None, avoid_edges=(), avoid_nodes=()):
+    # ------------------------------------------------------------ feasibility (variant tags along a path)
+    # A path that assigns `x = Enum::V(..)` (or a bool constant) to a whole local and later switches on that very
+    # local (possibly after moving it, or after `Try::branch`) can only take the matching edge.  Tracking these tags
+    # removes the infeasible paths that data-carrying refactors introduce (`let r = if c { Ok(a) } else { Err(e) };
+    # match r { .. }`).  Tags are only ever taken from whole-local assignments on the path itself and are dropped at
+    # any other definition, at a mutable borrow and at a drop of the local, so pruning never removes a real path.
+    def _feas_setup(self):
+        if getattr(self, "_feas", None) is not None:
+            return self._feas
+        b = self.b
+        tracked = set()
+        sw_local = {}
+        for bb in range(self.n):
+            t = self.term(bb)
+            if t["k"] != "switch":
+                continue
+            sw = Switch(self, bb, t)
+            if sw.kind == "enum" and sw.place is not None:
+                sw_local[bb] = ("enum", sw.place, sw)
+                tracked.add(sw.place["l"])
+            elif sw.kind == "bool":
+                pl = t["discr"].get("copy") or t["discr"].get("move")
+                if pl is not None and not pl["p"]:
+                    sw_local[bb] = ("bool", pl, sw)
+                    tracked.add(pl["l"])
+        # backward closure: values that flow into tracked locals by moves, projections, wrapping and Try::branch
+        changed = True
+        while changed:
+            changed = False
+            for blk in b.blocks:
+                for s_ in blk["stmts"]:
+                    if s_["k"] != "assign" or s_["lhs"]["p"] or s_["lhs"]["l"] not in tracked:
+                        continue
+                    rv = s_["rv"]
+                    srcs = []
+                    if rv["k"] == "use":
+                        srcs = [rv["op"]]
+                    elif rv["k"] == "agg" and rv.get("ak") == "adt":
+                        srcs = rv["ops"]
+                    for o in srcs:
+                        src = o.get("move") or o.get("copy")
+                        if src is not None and src["l"] not in tracked:
+                            tracked.add(src["l"])
+                            changed = True
+                t = blk["term"]
+                if t["k"] == "call" and not t["dest"]["p"] and t["dest"]["l"] in tracked and _is_try_branch(t) and t["args"]:
+                    src = t["args"][0].get("move") or t["args"][0].get("copy")
+                    if src is not None and src["l"] not in tracked:
+                        tracked.add(src["l"])
+                        changed = True
+        self._feas = (tracked, sw_local) if sw_local else False
+        return self._feas
+
+    @staticmethod
+    def _tag_of_place(e, pl):
+        """tag of a place under env e: follows `(x as V).0` projections into nested tags; None = unknown"""
+        cur = e.get(pl["l"])
+        for el in pl["p"]:
+            if cur is None:
+                return None
+            if isinstance(el, dict) and "downcast" in el:
+                if cur[0] != el.get("v"):
+                    return None
+                continue
+            if isinstance(el, dict) and "f" in el:
+                if el["f"] == 0:
+                    cur = cur[1]
+                    continue
+                return None
+            return None
+        return cur
+
+    def _feas_step(self, bb, env, tracked, sw_local):
+        """-> list of (successor, kind, env') honouring the tags in env (a frozenset of (local, tag));
+        tag = (variant name | 'true' | 'false', tag of the single payload or None)"""
+        e = dict(env)
+        blk = self.b.blocks[bb]
+        for s_ in blk["stmts"]:
+            if s_["k"] == "assign":
+                l = s_["lhs"]["l"]
+                rv = s_["rv"]
+                if rv["k"] in ("ref", "rawptr") and rv.get("bk") != "shared":
+                    e.pop(rv["place"]["l"], None)
+                if l in tracked:
+                    if s_["lhs"]["p"]:
+                        e.pop(l, None)
+                    elif rv["k"] == "agg" and rv.get("ak") == "adt" and rv.get("variant") is not None:
+                        sub = None
+                        if len(rv["ops"]) == 1:
+                            src = rv["ops"][0].get("move") or rv["ops"][0].get("copy")
+                            if src is not None:
+                                sub = self._tag_of_place(e, src)
+                        e[l] = (rv["variant"], sub)
+                    elif rv["k"] == "use" and "const" in rv["op"] and rv["op"]["const"].get("disp") in ("true", "false"):
+                        e[l] = (rv["op"]["const"]["disp"], None)
+                    elif rv["k"] == "use":
+                        src = rv["op"].get("move") or rv["op"].get("copy")
+                        tg = self._tag_of_place(e, src) if src is not None else None
+                        if tg is not None:
+                            e[l] = tg
+                        else:
+                            e.pop(l, None)
+                    else:
+                        e.pop(l, None)
+            elif s_["k"] == "setdiscr":
+                e.pop(s_["lhs"]["l"], None)
+        t = blk["term"]
+        k = t["k"]
+        only = None
+        if k == "switch" and bb in sw_local:
+            kind, pl, sw = sw_local[bb]
+            tag = self._tag_of_place(e, pl)
+            if tag is not None:
+                if tag[0] in sw.variants:
+                    only = sw.variants[tag[0]]
+                elif kind == "enum":
+                    only = t["otherwise"]
+        out = []
+        for (tgt, ek, lab) in self.succ[bb]:
+            if only is not None and ek == N and tgt != only:
+                continue
+            e2 = e
+            if k == "call" and ek == N:
+                d = t["dest"]
+                e2 = dict(e)
+                if d["l"] in tracked:
+                    if not d["p"] and _is_try_branch(t) and t["args"]:
+                        src = t["args"][0].get("move") or t["args"][0].get("copy")
+                        tag = self._tag_of_place(e, src) if src is not None else None
+                        if tag is not None and tag[0] in ("Ok", "Some"):
+                            e2[d["l"]] = ("Continue", tag[1])
+                        elif tag is not None and tag[0] in ("Err", "None"):
+                            e2[d["l"]] = ("Break", tag)
+                        else:
+                            e2.pop(d["l"], None)
+                    else:
+                        e2.pop(d["l"], None)
+            elif k == "yield" and ek == N:
+                e2 = dict(e)
+                e2.pop(t["resume_arg"]["l"], None)
+            elif k == "drop":
+                e2 = dict(e)
+                e2.pop(t["place"]["l"], None)
+            out.append((tgt, ek, frozenset(e2.items())))
+        return out
+
+    def reach(self, starts, kinds=(N, U, D), stop=None, avoid_edges=(), avoid_nodes=(), env0=None):
         """Set of blocks reachable from `starts` (inclusive).  `stop(bb)` true => bb is included
-        but not expanded.  avoid_edges: set of (a, b)."""
+        but not expanded.  avoid_edges: set of (a, b).  Paths that contradict a variant tag they assigned
+        themselves are not followed (see above); env0 = {local: tag} assumes tags at the start (used to ask
+        "what can this outcome of an operation reach?")."""
+        fs = self._feas_setup()
+        if fs:
+            tracked, sw_local = fs
+            if env0:
+                tracked = tracked | set(env0)
+            e0 = frozenset((env0 or {}).items())
+            ae = set(avoid_edges)
+            seen_b = set()
+            seen = set()
+            dq = deque()
+            for s0 in starts:
+                if s0 not in avoid_nodes and s0 >= 0 and (s0, e0) not in seen:
+                    seen.add((s0, e0))
+                    seen_b.add(s0)
+                    dq.append((s0, e0))
+            while dq:
+                x, env = dq.popleft()
+                if stop is not None and stop(x):
+                    continue
+                for (t, k, env2) in self._feas_step(x, env, tracked, sw_local):
+                    if t < 0 or k not in kinds or t in avoid_nodes or (x, t) in ae or (t, env2) in seen:
+                        continue
+                    if len(seen) > 60000:
+                        env2 = frozenset()
+                        if (t, env2) in seen:
+                            continue
+                    seen.add((t, env2))
+                    seen_b.add(t)
+                    dq.append((t, env2))
+            return seen_b
         seen = set()
         dq = deque()
         for s in starts:
@@ -437,6 +615,12 @@ def graph(body):
         g = G(body)
         body._cache["g"] = g
     return g
+
+
+def _is_try_branch(t):
+    f = t["func"]
+    fn = f["const"]["fn"] if "const" in f and "fn" in f["const"] else None
+    return fn is not None and fn.get("def") == "core::ops::try_trait::Try::branch"
 
 
 class Call:
